@@ -21,8 +21,8 @@ matrix (2 ≤ n < 2^31, 2·len = n(n−1)), both build modes, every prior state,
 Hypotheses (explicit): `OrderLaws α` (true of IEEE `<`), `NoNaNData data`, `AverageNoNaN α` (the update
 of two non-NaN values with positive sizes is not NaN; hypothesis, not proved for floats).
 
-NOT proved: the same for Ward on floats (weighted: `Props/C14Weighted.lean`; Ward still not reducible under rounding; bound measured
-by the oracle).
+Weighted: `Props/C14Weighted.lean`; Ward (repaired by the second `fix:` commit of the crate):
+`Props/C14Ward.lean`.
 -/
 import Kodama.Props.C14
 import Kodama.Props.C12Average
